@@ -95,7 +95,7 @@ def py_slice(seq, lo, hi):
         hi_n = n
     else:
         hi_n = norm_index(hi, n)
-    return z3.simplify(z3.SubSeq(seq, lo_n, hi_n - lo_n))
+    return z3.simplify(smart_subseq(seq, z3.simplify(lo_n), z3.simplify(hi_n - lo_n)))
 
 
 def be_int(seq_term, start, size):
@@ -121,3 +121,129 @@ def bit_and_const(x, c: int):
             acc = acc + ((x / z3.IntVal(1 << k)) % 2) * (1 << k)
         k += 1
     return acc
+
+
+# -- structural simplification of indexing / slicing into concatenations ------------------------------------------------
+
+def flatten_concat(t):
+    if z3.is_app(t) and t.decl().kind() == z3.Z3_OP_SEQ_CONCAT:
+        out = []
+        for i in range(t.num_args()):
+            out.extend(flatten_concat(t.arg(i)))
+        return out
+    return [t]
+
+
+def _part_len(p):
+    k = p.decl().kind() if z3.is_app(p) else None
+    if k == z3.Z3_OP_SEQ_UNIT:
+        return z3.IntVal(1)
+    if k == z3.Z3_OP_SEQ_EMPTY:
+        return z3.IntVal(0)
+    return z3.Length(p)
+
+
+def syntactically_nonneg(t):
+    """t (simplified Int term) is a sum of non-negative constants and non-negative multiples of Length(..) terms."""
+    if z3.is_int_value(t):
+        return t.as_long() >= 0
+    if z3.is_app(t):
+        k = t.decl().kind()
+        if k == z3.Z3_OP_SEQ_LENGTH:
+            return True
+        if k == z3.Z3_OP_ADD:
+            return all(syntactically_nonneg(t.arg(i)) for i in range(t.num_args()))
+        if k == z3.Z3_OP_MUL and t.num_args() == 2 and z3.is_int_value(t.arg(0)):
+            return t.arg(0).as_long() >= 0 and syntactically_nonneg(t.arg(1))
+    return False
+
+
+ORACLE = [None]   # optional callable(z3 Bool) -> bool: "the current path condition entails this"
+
+
+def _nonneg(t):
+    if syntactically_nonneg(t):
+        return True
+    if z3.is_int_value(t):
+        return False
+    o = ORACLE[0]
+    return bool(o and o(t >= 0))
+
+
+def _is_zero(t):
+    if z3.is_int_value(t):
+        return t.as_long() == 0
+    o = ORACLE[0]
+    return bool(o and o(t == 0))
+
+
+def drop_prefix(parts, off):
+    """Remove leading parts wholly before offset `off`.  Returns (remaining parts, new offset)."""
+    parts = list(parts)
+    off = z3.simplify(off)
+    while parts:
+        plen = _part_len(parts[0])
+        rest = z3.simplify(off - plen)
+        if _nonneg(rest):
+            parts.pop(0)
+            off = rest
+        else:
+            break
+    return parts, off
+
+
+def mk_concat(parts, sort):
+    parts = [p for p in parts if not (z3.is_app(p) and p.decl().kind() == z3.Z3_OP_SEQ_EMPTY)]
+    if not parts:
+        return z3.Empty(sort)
+    if len(parts) == 1:
+        return parts[0]
+    return z3.Concat(*parts)
+
+
+def smart_nth(seq, pos):
+    parts = flatten_concat(seq)
+    if len(parts) > 1:
+        parts, off = drop_prefix(parts, pos)
+        if parts and z3.is_int_value(off):
+            o = off.as_long()
+            i = 0
+            while i < len(parts) and o >= 0:
+                p = parts[i]
+                if z3.is_app(p) and p.decl().kind() == z3.Z3_OP_SEQ_UNIT:
+                    if o == 0:
+                        return p.arg(0)
+                    o -= 1
+                    i += 1
+                else:
+                    break
+            return mk_concat(parts[i:], seq.sort())[z3.IntVal(o)] if i < len(parts) else seq[pos]
+        if parts:
+            return mk_concat(parts, seq.sort())[off]
+    return seq[pos]
+
+
+def smart_subseq(seq, start, length):
+    parts = flatten_concat(seq)
+    if len(parts) > 1:
+        parts, off = drop_prefix(parts, start)
+        if _is_zero(off):
+            # try to match whole leading parts against the requested length
+            taken = []
+            remaining = z3.simplify(length)
+            rest_parts = list(parts)
+            while rest_parts:
+                plen = _part_len(rest_parts[0])
+                r = z3.simplify(remaining - plen)
+                if _nonneg(r):
+                    taken.append(rest_parts.pop(0))
+                    remaining = r
+                else:
+                    break
+            if _is_zero(remaining):
+                return mk_concat(taken, seq.sort())
+            if taken:
+                return z3.Concat(mk_concat(taken, seq.sort()), z3.SubSeq(mk_concat(rest_parts, seq.sort()), z3.IntVal(0), remaining)) \
+                    if rest_parts else mk_concat(taken, seq.sort())
+        return z3.SubSeq(mk_concat(parts, seq.sort()), off, length)
+    return z3.SubSeq(seq, start, length)
